@@ -118,6 +118,13 @@ def build_jobs(t, sd):
                         for kind in ("int", "bytes"):
                             nm, rec, o = gen_const.boundary_family(mode, v, n, kind)
                             add(nm, rec, v, mode, None, assemble=True)
+    # programs at the 256-slot limit, with and without explicitly numbered variables: a slot number above 255 is not
+    # encodable; whatever is accepted must be legal (the limit itself is C10's subject)
+    from ..recipe import gen_slots
+    for v in ((6, 10) if not thorough else (3, 5, 6, 8, 10)):
+        for n, ex in ((255, []), (256, []), (257, []), (254, [5]), (255, [5]), (256, [5]), (256, [255]), (255, [0, 1]), (250, [3, 7, 11, 200, 254, 255]), (251, [3, 7, 11, 200, 254, 255])):
+            rec = gen_slots.slot_program("A", v, n, ex, "main")[0]
+            add("slots-limit:n%d:e%s" % (n, "-".join(map(str, ex)) or "none"), rec, v, "A", None, dyn=False)
     for j in jobs[:: max(1, len(jobs) // 4)]:
         j["sample"] = True
     return jobs
